@@ -18,7 +18,6 @@
 //	                    TotalAlloc(decode with V) <= TotalAlloc(decode with len+1) + 1 MiB
 //	memory-anchored     TotalAlloc(decode mutant) <= 64 * TotalAlloc(decode of the valid base) + 1 MiB
 //	input-not-written   the input is handed over inside a larger caller-owned buffer; the call leaves it (and the topics) alone
-//	tree-independent-of-input-buffer  a returned tree renders the same after the caller has overwritten that buffer
 //
 // and, over sequences of calls (seq_test.go): kind "shared" (goroutines decoding with one fresh
 // definition give the sequential outcomes and the process survives) and kind "retention" (live
@@ -516,17 +515,10 @@ func judge(c Case) (vs []evid.Violation) {
 	}
 	if res.cv != nil {
 		last.tree = true
-		// F2: the tree is the caller's now and the buffer is the caller's again: overwrite the buffer, the tree
-		// (as the first serializer renders it) must not change. (Raw topics surfaced for indexed reference
-		// types may be views of the caller's topics by design: the topics are left alone.)
-		var before []byte
-		if pv := evid.Guard("serialises", func() { before, _ = serializers[0]().SerializeJSON(res.cv) }); pv == nil && before != nil {
-			res.own.Scribble()
-			var after []byte
-			if pv := evid.Guard("serialises", func() { after, _ = serializers[0]().SerializeJSON(res.cv) }); pv == nil && !bytes.Equal(before, after) {
-				vs = append(vs, evid.V("tree-independent-of-input-buffer", "%s of %s: the returned tree changed when the caller overwrote its input buffer after the call: was %.300s, is now %.300s; input %s", c.Entry, c.Decl, before, after, short(data)))
-			}
-		}
+		// Not asserted here: that the tree is independent of the caller's buffer.  C11 promises totality, stability
+		// of re-encoding and bounded memory; a decoder that hands out views of its input keeps all three.  (The
+		// clause used to be here and raised an alarm on such a change in the benign round; value identity under
+		// later changes of the buffer is C03's subject, where the clause stays.)
 		vs = append(vs, judgeTree(p, &c, res.cv, data)...)
 	}
 
